@@ -24,7 +24,17 @@ type helperCase struct {
 	name string
 	c    Case
 	nt   bool
+	unj  bool // an input fails with a cancellation-class error, which this helper's source classifies as end of stream: not judged from there on
 	run  func() (class, desc string, trace []string)
+}
+
+func hasCancelClass(ins []InSpec) bool {
+	for _, in := range ins {
+		if cancellationClassValue(in.term()) || firesCtx(in.term()) {
+			return true
+		}
+	}
+	return false
 }
 
 // repro: schedule dependent helpers are judged only on what reproduces 5/5.
@@ -84,6 +94,9 @@ func runHelpers(o *core.Options, r *core.Report, col *collector) {
 				hc := g.at(i)
 				class, desc, tr, stable := repro(hc)
 				st.Cases++
+				if hc.unj {
+					st.Unjudged++
+				}
 				if hc.nt {
 					st.Nontrivial++
 					r.Nontrivial(core.Hash(hc.name, insKey(hc.c.Inputs), hc.c.Extra, fmt.Sprint(hc.c.Param)))
@@ -115,9 +128,9 @@ func runHelpers(o *core.Options, r *core.Report, col *collector) {
 	col.docs["iterator.SkipTo"] = "no doc comment; inline: 'If current head >= target, we're done. Otherwise advance the iterator' => exactly the leading items < target are consumed"
 	col.open["iterator.SkipTo"] = "whether an input error (of any kind) met while skipping is returned or left for the next read (the inputs' errors are sticky)"
 	col.docs["iterator.Stream"] = "Stream aggregates multiple iterators that are sent to a source channel into one iterator; Head: 'returns the first item in the buffer. If the Head is sourceIsClosed or cancelled, it will stop the buffer and set the buffer to nil'; SkipToTargetObject: 'moves the buffer until the buffer's head object is >= target object...'; Drain: 'Drain all item in the stream's buffer and return these items'; Streams.Stop: 'Drain all streams completely to avoid leaving dangling resources'; CleanDone: 'clean up the sourceIsClosed iterator streams and return a list of the remaining active streams'"
-	col.open["iterator.Stream"] = "CleanDone after Stop (races with the draining goroutine); CleanDone under a cancelled context (select between ctx.Done() and the source); results after the first error; 'cancelled' in the Head/SkipToTargetObject comments is read as: the request context is cancelled or timed out, or the buffer answers an error of the context.Canceled/DeadlineExceeded family (also wrapped) - Head/Next must still return that error, SkipToTargetObject and Drain end quietly; an error that merely prints like ErrIteratorDone is an ordinary error"
-	col.docs["iterator.ToChannel"] = "no doc comment => every item is delivered in order, a non-Done error of the iterator (any kind, as long as the consumer's context is alive) is delivered as ValueMsg.Err, the channel is closed at the end"
-	col.open["iterator.ToChannel"] = "messages after the first Err message (the producer keeps polling the failed iterator until the context is cancelled); what is delivered once the context is cancelled; who stops the iterator"
+	col.open["iterator.Stream"] = "CleanDone after Stop (races with the draining goroutine); CleanDone under a cancelled context (select between ctx.Done() and the source); results after the first error; 'cancelled' in the Head/SkipToTargetObject comments is read as: the request context is cancelled or timed out, or the buffer answers an error of the context.Canceled/DeadlineExceeded family (also wrapped) - what the stream does from there on is not judged (the source classifies it with storage.IterIsDoneOrCancelled on the premise that it stems from the caller's own context); an error that merely prints like ErrIteratorDone is an ordinary error and must surface, as must a Msg.Err of any kind"
+	col.docs["iterator.ToChannel"] = "no doc comment => every item is delivered in order, a generic error or Done look-alike of the iterator is delivered as ValueMsg.Err, the channel is closed at the end"
+	col.open["iterator.ToChannel"] = "a cancellation-class failure of the iterator (context.Canceled/DeadlineExceeded bare or wrapped, or the consumer's context cancelled/timed out): classified by the source as end of stream, closing quietly or delivering an Err message both accepted (counted, not judged); messages after the first Err message (the producer keeps polling the failed iterator until the context is cancelled); what is delivered once the context is cancelled; who stops the iterator"
 	col.docs["iterator.FanInIteratorChannels"] = "no doc comment; inline: 'the consumer of this channel will block waiting for it to close' => every message of every input channel is delivered exactly once and out is closed once all inputs are closed; under a cancelled context a message is delivered or its iterator is stopped"
 	col.open["iterator.FanInIteratorChannels"] = "relative order of messages; loss of Err messages under cancellation (Err messages carry every error-value kind in turn; the context is alive, cancelled / timed out before the call, or after the first delivery)"
 	col.docs["iterator.Drain"] = "no doc comment; Streams.Stop: 'Drain ... to avoid leaving dangling resources' => after Wait every iterator sent on the (closed) channel is stopped and the channel is empty"
@@ -174,7 +187,7 @@ func skipToCases(o *core.Options) []*helperCase {
 				target = "doc:"
 			}
 			c := Case{Harness: "c23seq", Adapter: "iterator.SkipTo", Inputs: []InSpec{in}, Extra: "target=" + target}
-			out = append(out, &helperCase{name: "iterator.SkipTo", c: c, nt: nontrivial(c.Inputs), run: func() (string, string, []string) {
+			out = append(out, &helperCase{name: "iterator.SkipTo", c: c, nt: nontrivial(c.Inputs), unj: hasCancelClass(c.Inputs), run: func() (string, string, []string) {
 				e := newEnvMode(ctxModeFor(&adapter{}, []InSpec{in}, ""))
 				defer e.done()
 				s := cPlain.stub(e, 0, in)
@@ -221,6 +234,7 @@ type refStream struct {
 	buf     *rin
 	closed  bool
 	removed bool
+	hit     bool // the buffer answered a cancellation-class failure: unspecified from here on
 }
 
 func (s *refStream) pull(consume bool) obs {
@@ -228,6 +242,9 @@ func (s *refStream) pull(consume bool) obs {
 		return obs{K: 'd'}
 	}
 	o := s.buf.get(consume)
+	if isCancelClass(o) {
+		s.hit = true
+	}
 	if o.K == 'd' || isCancelClass(o) {
 		s.buf = nil // "If the Head is sourceIsClosed or cancelled, it will stop the buffer and set the buffer to nil"
 	}
@@ -358,7 +375,7 @@ func streamGens(o *core.Options) [2]helperGen {
 		return helperGen{name: "iterator.Stream", inputs: len(lists), n: len(lists) * len(scripts), at: func(i int) *helperCase {
 			l, sc := lists[i/len(scripts)], scripts[i%len(scripts)]
 			c := Case{Harness: "c23seq", Adapter: "iterator.Stream", Inputs: l.ins, Param: l.p, ParamIs: "digit i (base 7): 0 = message i carries the iterator, d > 0 = message i is Msg{Err: " + strings.Join(termNames[1:], "|") + " minus the two context terminations, kind d}", Script: sc}
-			return &helperCase{name: "iterator.Stream", c: c, nt: nontrivial(l.ins) || l.p != 0, run: func() (string, string, []string) {
+			return &helperCase{name: "iterator.Stream", c: c, nt: nontrivial(l.ins) || l.p != 0, unj: hasCancelClass(l.ins), run: func() (string, string, []string) {
 				return runStream(l.ins, l.p, sc)
 			}}
 		}}
@@ -470,6 +487,10 @@ func runStream(ins []InSpec, mask int, script string) (class, desc string, tr []
 			return
 		}
 		r := ref.op(op)
+		if ref.hit {
+			comparing = false // cancellation-class failure of the buffered iterator: classified as end of stream by the source, not judged
+			return
+		}
 		switch {
 		case r.K == 'e' || r.K == 'c':
 			if o.K == 'v' || o.K == 'd' || o.K == 'o' || o.K == 'l' {
@@ -511,7 +532,7 @@ func toChannelCases(o *core.Options) []*helperCase {
 		for _, batch := range []int{0, 1, 2, 8} {
 			in, batch := in, batch
 			c := Case{Harness: "c23seq", Adapter: "iterator.ToChannel", Inputs: []InSpec{in}, Param: batch, ParamIs: "batchSize"}
-			out = append(out, &helperCase{name: "iterator.ToChannel", c: c, nt: nontrivial(c.Inputs), run: func() (class, desc string, tr []string) {
+			out = append(out, &helperCase{name: "iterator.ToChannel", c: c, nt: nontrivial(c.Inputs), unj: hasCancelClass(c.Inputs), run: func() (class, desc string, tr []string) {
 				e := newEnvMode(ctxModeFor(&adapter{asyncStop: true}, []InSpec{in}, ""))
 				defer e.done()
 				s := cDoc.stub(e, 0, in)
@@ -570,9 +591,11 @@ func toChannelCases(o *core.Options) []*helperCase {
 					if len(got) != len(want) || sawErr {
 						return "items-lost-or-spurious-error", fmt.Sprintf("delivered %v err=%v, specified %v then close", got, sawErr, want), tr
 					}
-				case termCancel, termDeadline:
-					// the consumer's own context is gone: nothing more is specified
-				default: // an error value while the consumer's context is alive
+				case termCancel, termDeadline, termCanceledVal, termDeadlineVal, termWrappedCanceled, termWrappedDeadline:
+					// cancellation class: ToChannel classifies it with storage.IterIsDoneOrCancelled as end of stream (the
+					// premise being that it stems from the consumer's own context): closing quietly and delivering an Err
+					// message are both acceptable - only the delivered values (a prefix, checked above) are judged
+				default: // a generic error or a Done look-alike
 					if len(got) != len(want) {
 						return "items-lost-before-error", fmt.Sprintf("delivered %v, specified %v then the error", got, want), tr
 					}
@@ -581,7 +604,7 @@ func toChannelCases(o *core.Options) []*helperCase {
 						if cls == "input-error" {
 							return "input-error-swallowed", "the channel was closed without an Err message", tr
 						}
-						return cls + "-treated-as-exhausted", "the iterator failed with " + termErrs[in.term()].Error() + " under a live context; the channel was closed without an Err message, as after a complete sequence", tr
+						return cls + "-treated-as-exhausted", "the iterator failed with an error that only prints like ErrIteratorDone; the channel was closed without an Err message, as after a complete sequence", tr
 					}
 				}
 				return "", "", tr
